@@ -8,6 +8,7 @@ filter (readloop.go).  Core Lean only.
   * `parseHdr`             the `fecFlag` switch of `Listener.packetInput` computing (hasConv, conv, sn)
   * `listenerInput`        `Listener.packetInput`: drop / route / (close old and) create
   * `accept`, `userClose`  `AcceptKCP` (data path) and `UDPSession.Close` → `Listener.closeSession`
+  * `listenerInputD`, `listenerClose`  `Listener.packetInput` with the `l.die` test, `Listener.Close`
   * `Dial.filter`          the source-address filter of `defaultReadLoop` / linux `readLoop`
 
 Everything behind `kcpInput` (KCP core, FEC decoder, OOB callback, reader buffer, SNMP counters it
@@ -173,6 +174,7 @@ inductive DropWhy where
   | convMismatch   -- existing session, other conversation, sn ≠ 0 (silent)
   | noConv         -- no session and no readable conversation id (silent)
   | backlogFull    -- no session, readable conversation id, accept queue full (silent)
+  | listenerClosed -- no session, readable conversation id, room, but `l.die` is closed (silent)
 deriving Repr, DecidableEq
 
 inductive Decision where
@@ -224,6 +226,73 @@ def listenerInput {σ : Type} (w : World σ) (c : Cipher) (l : Listener σ) (dat
                 dec := .route a id }
             else if h.sn ≠ 0 then { l := l, dec := .drop .convMismatch }
             else tryCreate w (closeSess w l id) p a h (some id)
+
+/-! ### `Listener.Close` and the `l.die` test
+
+`Listener.Close()` (first call) closes `l.die` and then `closeUnaccepted()`: every session still in
+the accept backlog is `Close`d (they were never handed out, nobody else could close them) and the
+queue is empty afterwards.  `Listener.packetInput` tests `l.die` after the backlog test and before
+`newUDPSession` (sess.go 1289-1294): a closed listener still routes, ignores and — on a reset frame —
+closes the old session (`s.Close()` comes first), but creates nothing.  The `dead` flag is kept by
+the caller (`true` after `listenerClose`).  The second `l.die` test behind `l.chAccepts <- s`
+only matters when `Close` runs concurrently with `packetInput` (not sequentially reachable). -/
+
+/-- the tail of `Listener.packetInput` with the `l.die` test; `tryCreate` is the instance `dead = false`
+    (`Lemmas/SessInClose.lean`: `tryCreateD_false`) -/
+def tryCreateD {σ : Type} (w : World σ) (l : Listener σ) (dead : Bool) (p : Bytes) (a : String) (h : Hdr)
+    (closedOld : Option Nat) : LStep σ :=
+  if !h.hasConv then { l := l, dec := .drop .noConv }
+  else if l.accepts.length ≥ acceptBacklog then
+    { l := l, dec := match closedOld with
+                     | none => .drop .backlogFull
+                     | some old => .closedOnly a old }
+  else if dead then
+    { l := l, dec := match closedOld with
+                     | none => .drop .listenerClosed
+                     | some old => .closedOnly a old }
+  else
+    { l := { objs := l.objs ++ [{ conv := h.conv, addr := a, st := w.kcpInput (w.init h.conv) p, closed := false }],
+             table := (a, l.objs.length) :: unmap l.table a,
+             accepts := l.accepts ++ [l.objs.length] },
+      dec := .create a h.conv closedOld l.objs.length }
+
+/-- `Listener.packetInput(data, addr)` of a listener whose `die` channel is closed iff `dead`;
+    `listenerInput` is the instance `dead = false` (`listenerInputD_false`) -/
+def listenerInputD {σ : Type} (w : World σ) (c : Cipher) (l : Listener σ) (dead : Bool) (data : Bytes) (a : String) :
+    LStep σ :=
+  match cryptGate c data with
+  | .short => { l := l, dec := .drop .short }
+  | .csum => { l := l, dec := .drop .csum }
+  | .ok p =>
+    if p.length < minPacket then { l := l, dec := .drop .minSize }
+    else match parseHdr p with
+      | none => { l := l, dec := .drop .rawShort }
+      | some h =>
+        match lookup l.table a with
+        | none => tryCreateD w l dead p a h none
+        | some id =>
+          match l.objs[id]? with
+          | none => { l := l, dec := .drop .noConv }
+          | some o =>
+            if !h.hasConv || h.conv = o.conv then
+              { l := { l with objs := modifyAt l.objs id (fun o => { o with st := w.kcpInput o.st p }) },
+                dec := .route a id }
+            else if h.sn ≠ 0 then { l := l, dec := .drop .convMismatch }
+            else tryCreateD w (closeSess w l id) dead p a h (some id)
+
+/-- `s.Close()` for the sessions with the given creation indices, in order -/
+def closeAll {σ : Type} (w : World σ) (l : Listener σ) : List Nat → Listener σ
+  | [] => l
+  | id :: rest => closeAll w (closeSess w l id) rest
+
+/-- `closeUnaccepted()`: drain `chAccepts`, closing every session found there -/
+def closeUnaccepted {σ : Type} (w : World σ) (l : Listener σ) : Listener σ :=
+  { closeAll w l l.accepts with accepts := [] }
+
+/-- `Listener.Close()`: once only (`dieOnce`; a second call returns `io.ErrClosedPipe` and does
+    nothing); the caller's `dead` flag is `true` afterwards -/
+def listenerClose {σ : Type} (w : World σ) (l : Listener σ) (dead : Bool) : Listener σ :=
+  if dead then l else closeUnaccepted w l
 
 /-- data path of `AcceptKCP`: the head of the queue -/
 structure AcceptResult (σ : Type) where
